@@ -214,7 +214,7 @@ func (d *driver) run() int {
 		return 2
 	}
 	fmt.Printf("%s %s: %d runs, %d non-trivial (%d distinct), %d events, %d inconclusive, %d violations (%d known) in %.1fs\n",
-		d.prop, d.tier, agg.runs, agg.nontrivial(), len(agg.shapes), agg.events, agg.inconclusive, len(agg.violations), agg.knownHits, wall)
+		d.prop, d.tier, agg.runs, agg.nontrivial(), len(agg.shapes)+agg.extraDistinct, agg.events, agg.inconclusive, len(agg.violations), agg.knownHits, wall)
 	if code == 0 && agg.nontrivial() < spec.minNontrivial(d.tier) && d.only == "" && d.runsOverride == 0 {
 		fmt.Fprintf(os.Stderr, "check: only %d non-trivial runs (minimum %d): the check is broken, not a verdict\n", agg.nontrivial(), spec.minNontrivial(d.tier))
 		return 2
